@@ -195,19 +195,58 @@ def evaluate(ctx, cases):
         check_case(ctx, c, steps, lib_db.model_steps(ans))
 
 
+def small_alphabet():
+    """every command of a tiny universe: product p, versions 1-2, both flavors, both stacks, tag beta"""
+    out = []
+    for f in lib_db.FLAVS:
+        for v in ("1", "2"):
+            for si in range(lib_db.NSTACKS):
+                for t in (None, "beta"):
+                    out.append({"op": "declare", "user": "A", "flavor": f, "name": "p", "version": v,
+                                "dir": [si, lib_db.rel_of(f, "p", v)], "tag": t})
+            out.append({"op": "declare", "user": "A", "flavor": f, "name": "p", "version": v, "tag": "beta"})
+            out.append({"op": "assignTag", "user": "A", "flavor": f, "name": "p", "version": v, "tag": "beta"})
+        for v in ("1", "2", None):
+            out.append({"op": "undeclare", "user": "A", "flavor": f, "name": "p", "version": v})
+        for v in ("1", None):
+            out.append({"op": "undeclare", "user": "A", "flavor": f, "name": "p", "version": v, "tag": "beta"})
+        out.append({"op": "undeclare", "user": "A", "flavor": f, "name": "p", "tag": "beta", "vat": True})
+    return out
+
+
+def exhaustive(ctx):
+    """thorough tier: every history of length 2 over the small alphabet, and a sample of those of length 3"""
+    import itertools
+    al = small_alphabet()
+    ctx.hist("exhaustive alphabet", len(al))
+    pairs = [{"missing": [], "cmds": [dict(a), dict(b)]} for a, b in itertools.product(al, al)]
+    for i in range(0, len(pairs), 120):
+        if ctx.out_of_time():
+            return
+        evaluate(ctx, pairs[i:i + 120])
+    ctx.hist("exhaustive length-2 histories", len(pairs))
+    ctx.note("every history of length 2 over an alphabet of %d commands was run (%d histories)" % (len(al), len(pairs)))
+    for _ in range(50):
+        if ctx.out_of_time():
+            return
+        evaluate(ctx, [{"missing": [], "cmds": [dict(ctx.rng.choice(al)) for _ in range(3)]} for _ in range(120)])
+
+
 def run(ctx):
     cases = corpus_cases()
     ctx.hist("corpus", len(cases))
     evaluate(ctx, cases)
     n = ctx.n(300, 10000)
     done = 0
-    soft = ctx.t0 + (110 if ctx.tier == "quick" and not ctx.escalated else 1e9)   # keep the quick tier under ~3 minutes
+    soft = ctx.t0 + (85 if ctx.tier == "quick" and not ctx.escalated else 1e9)   # keep the quick tier under ~3 minutes
     while done < n and not ctx.out_of_time() and time.time() < soft:
-        k = min(60, n - done)
+        k = min(48, n - done)
         evaluate(ctx, [lib_db.gen_history(ctx.rng, ctx.rng.randint(5, 40)) for _ in range(k)])
         done += k
     if ctx.evaluations and ctx.distinct_nontrivial < ctx.evaluations * 0.3:
         raise common.InfraError("degenerate distribution: %d non-trivial of %d" % (ctx.distinct_nontrivial, ctx.evaluations))
+    if ctx.tier == "thorough":
+        exhaustive(ctx)
     shrink_failures(ctx)
     moved = ctx.histogram.get("tag-moved", 0)
     if ctx.evaluations > 50 and moved < ctx.evaluations:
